@@ -44,10 +44,13 @@ _ESCMAP = {'\a': '\\a', '\b': '\\b', '\f': '\\f', '\n': '\\n', '\r': '\\r', '\t'
 
 
 def quote(s, style=0):
-    """style 0: symbolic escapes; style 1: every non-alphanumeric character as \\xHH; style 2: '/' and letters escaped with a backslash"""
+    """style 0: symbolic escapes; style 1: every non-alphanumeric character as \\xHH; style 2: '/', ':' and blank escaped with a backslash;
+    style 3: control characters, blank, ':' and '/' written as backslash + the literal byte"""
     o = ['"']
     for ch in s:
-        if style == 1 and not ch.isalnum():
+        if style == 3 and (ch in '\t\n\r\f\v\a\b' or ch in ' :/'):
+            o.append('\\' + ch)             # an unsupported escape: backslash + the literal byte stands for that byte
+        elif style == 1 and not ch.isalnum():
             o.append('\\x%02x' % ord(ch))
         elif ch in _ESCMAP:
             o.append(_ESCMAP[ch])
@@ -80,6 +83,8 @@ class R:
             opts.append(quote(text, 1))
         if any(c in '/: ' for c in text):
             opts.append(quote(text, 2))
+        if any(c in '\t\n\r\f\v\a\b :/' for c in text):
+            opts.append(quote(text, 3))
         return self.choose(opts, label)
 
     def body(self, entries, root):
@@ -317,6 +322,9 @@ def main(tier):
         for res in pool.imap(_task, batches):
             if isinstance(res, dict):
                 raise common.HarnessError(res['harness_error'])
+            if run.out_of_time(20):
+                run.cap('deadline after %d of %d files' % (nfiles, len(cases)))
+                break
             for cid, status, rc, flat, err in res:
                 ti, dev = cases[cid]
                 text, pts = render(T[ti], dev)
@@ -342,7 +350,7 @@ def main(tier):
         tc = typed_cases(quick)
         tb = [tc[i:i + 100] for i in range(0, len(tc), 100)]
         n_typed = n_typed_bad = 0
-        for res in pool.imap(_typed_task, tb):
+        for res in (pool.imap(_typed_task, tb) if not run.capped else []):
             if isinstance(res, dict):
                 raise common.HarnessError(res['harness_error'])
             for st, text, want, got, ok in res:
@@ -360,7 +368,7 @@ def main(tier):
                    'loaded into a registered typed setting); distinct = distinct file texts (renderings of different trees can coincide) + typed cases; all are non-trivial: every file '
                    'has at least one entry and reaches the entry parser',
            'samples': [render(T[ti], dev)[0] for ti, dev in (cases[0], cases[len(cases) // 3], cases[len(cases) // 2], cases[-1])],
-           'exhaustive': True, 'trees': len(T), 'files': nfiles, 'files_by_number_of_deviations': dev_hist, 'read_back_correctly': n_ok, 'rejected': n_rej,
+           'exhaustive': not run.capped, 'trees': len(T), 'files': nfiles, 'files_by_number_of_deviations': dev_hist, 'read_back_correctly': n_ok, 'rejected': n_rej,
            'typed_values': n_typed, 'typed_values_wrong': n_typed_bad,
            'explanation': 'deviation-bounded enumeration of renderings: default, every single deviation at every choice point' + ('' if quick else ', every pair of deviations') +
                           ('; pairs only for single-entry trees in the quick tier' if quick else '')}
